@@ -7,6 +7,8 @@
 //	CCall     end-to-end over loopback: caller -> proxy.ListenAndServeGRPC with the server
 //	          options of main.go:newGrpcProxy (replicated below, 6 lines) -> raw-bytes backends
 //	          playing scripted outcomes; unary and streaming calls with generated metadata
+//	CLimit    unary calls of sizes around proxy.grpcmaxrxmsgsize / grpcmaxtxmsgsize through a server
+//	          built by the REAL main.go:newGrpcProxy (driver /repo/verif_c16_test.go, run with go test)
 //	CSession  the same calls as one history with table changes and the real 5 s cleanup
 //	          ticks in between; observable = connections begun / ended at every backend
 package main
@@ -16,12 +18,15 @@ import (
 	"context"
 	"crypto/sha256"
 	"encoding/binary"
+	"encoding/json"
 	"fmt"
 	"io"
 	"math/rand"
 	"net"
 	"net/url"
 	"os"
+	"os/exec"
+	"path/filepath"
 	"sort"
 	"strings"
 	"sync"
@@ -615,6 +620,8 @@ func main() {
 	lap("race")
 	session(run, r, backends)
 	lap("session")
+	limitCases(run, r)
+	lap("limits")
 
 	run.Finish(preamble, run.Scale(40, 120))
 	if len(run.Viol) > 0 {
@@ -1286,4 +1293,122 @@ func session(run *vh.Run, r *rand.Rand, backends []*backend) {
 	run.Notes["session_real_ticks"] = ticks
 	run.Notes["session_noroute_counter"] = atomic.LoadInt64(&noRoute)
 	run.Add("session", vh.App("CSession", vh.List(steps), vh.List(obs)), map[string]interface{}{"steps": len(steps), "ticks": ticks, "first": ssample[:min(len(ssample), 40)]})
+}
+
+// ---------------------------------------------------------------------------
+// CLimit: the real newGrpcProxy (package main cannot be imported: the driver
+// /repo/verif_c16_test.go runs it under `go test -tags verif` in the repository under test)
+
+type limCall struct {
+	Req  int `json:"req"`
+	Resp int `json:"resp"`
+}
+type limJob struct {
+	Rx    int       `json:"rx"`
+	Tx    int       `json:"tx"`
+	Calls []limCall `json:"calls"`
+}
+type limResult struct {
+	Code       uint32 `json:"code"`
+	Msg        string `json:"msg"`
+	BackendGot bool   `json:"backend_got"`
+	BackendLen int    `json:"backend_len"`
+	CallerGot  bool   `json:"caller_got"`
+	CallerLen  int    `json:"caller_len"`
+}
+
+func limitCases(run *vh.Run, r *rand.Rand) {
+	const small = 24
+	pairs := [][2]int{{300000, 100000}, {100000, 300000}, {8 << 20, 1 << 20}, {1 << 20, 8 << 20}, {65536, 65536}, {4 << 20, 4 << 20}}
+	if run.Thorough() {
+		for i := 0; i < 6; i++ {
+			pairs = append(pairs, [2]int{1000 + r.Intn(3<<20), 1000 + r.Intn(3<<20)})
+		}
+	}
+	var jobs []limJob
+	for _, p := range pairs {
+		lo, hi := min(p[0], p[1]), max(p[0], p[1])
+		sizes := []int{0, small, lo - 1, lo, lo + 1, hi - 1, hi, hi + 1}
+		if hi > lo+2 {
+			sizes = append(sizes, lo+2+r.Intn(hi-lo-2), (lo+hi)/2)
+		}
+		j := limJob{Rx: p[0], Tx: p[1]}
+		for _, s := range sizes {
+			if s == 1 { // no protobuf message has one byte
+				continue
+			}
+			j.Calls = append(j.Calls, limCall{Req: s, Resp: small}, limCall{Req: small, Resp: s})
+		}
+		j.Calls = append(j.Calls, limCall{Req: lo + 1, Resp: lo + 1}, limCall{Req: hi, Resp: lo})
+		jobs = append(jobs, j)
+	}
+	repo := os.Getenv("VERIF_REPO")
+	if repo == "" {
+		repo = "/repo"
+	}
+	dir, err := os.MkdirTemp("", "verif-c16-")
+	if err != nil {
+		panic(err)
+	}
+	defer os.RemoveAll(dir)
+	inF, outF := filepath.Join(dir, "in.json"), filepath.Join(dir, "out.json")
+	b, _ := json.Marshal(jobs)
+	if err := os.WriteFile(inF, b, 0o644); err != nil {
+		panic(err)
+	}
+	cmd := exec.Command("go", "test", "-tags", "verif", "-count=1", "-run", "TestVerifC16$", ".")
+	cmd.Dir = repo
+	cmd.Env = append(os.Environ(), "VERIF_C16_IN="+inF, "VERIF_C16_OUT="+outF)
+	var logb bytes.Buffer
+	cmd.Stdout, cmd.Stderr = &logb, &logb
+	done := make(chan error, 1)
+	if err := cmd.Start(); err != nil {
+		run.Violation(run.NextID(), "cannot start go test for the newGrpcProxy driver: "+err.Error(), nil)
+		return
+	}
+	go func() { done <- cmd.Wait() }()
+	select {
+	case err = <-done:
+	case <-time.After(8 * time.Minute):
+		cmd.Process.Kill()
+		err = fmt.Errorf("timeout")
+	}
+	var outs [][]limResult
+	if err == nil {
+		var data []byte
+		if data, err = os.ReadFile(outF); err == nil {
+			err = json.Unmarshal(data, &outs)
+		}
+	}
+	if err != nil || len(outs) != len(jobs) {
+		tail := logb.String()
+		if len(tail) > 1500 {
+			tail = tail[len(tail)-1500:]
+		}
+		run.Violation(run.NextID(), fmt.Sprintf("newGrpcProxy driver (go test -tags verif -run TestVerifC16 in %s) failed: %v", repo, err), tail)
+		return
+	}
+	for ji, j := range jobs {
+		if len(outs[ji]) != len(j.Calls) {
+			run.Violation(run.NextID(), "newGrpcProxy driver returned an incomplete job", j)
+			continue
+		}
+		for ci, c := range j.Calls {
+			o := outs[ji][ci]
+			class := "limit-equal"
+			switch {
+			case j.Rx > j.Tx:
+				class = "limit-rx-above-tx"
+			case j.Rx < j.Tx:
+				class = "limit-tx-above-rx"
+			}
+			if o.BackendLen == -2 {
+				run.Violation(run.NextID(), "backend received more than one message for a unary call", map[string]interface{}{"job": j, "call": c})
+				continue
+			}
+			run.Add(class, vh.App("CLimit", vh.N(j.Rx), vh.N(j.Tx), vh.N(c.Req), vh.N(c.Resp), vh.Bool(o.BackendGot), vh.Bool(o.CallerGot), vh.N(int(o.Code))),
+				map[string]interface{}{"grpcmaxrxmsgsize": j.Rx, "grpcmaxtxmsgsize": j.Tx, "request_bytes": c.Req, "response_bytes": c.Resp,
+					"code": o.Code, "msg": o.Msg, "backend_received": o.BackendLen, "caller_received": o.CallerLen})
+		}
+	}
 }
